@@ -298,6 +298,10 @@ def units(tier):
     for T in (1, 2):
         us.append(Unit('C09/K/QuadraticMultiTask/get_lipschitz[T=%d]' % T, u_multitask_lipschitz,
                        dict(n=3, p=2, T=T, pattern=PATTERNS_32[1]), wall_s=60))
+    # CSC inputs whose trailing (or leading) samples store nothing: the sample count is Y's, not the largest stored row index
+    for pi in (2, 3, 4, 5):
+        us.append(Unit('C09/K/QuadraticMultiTask/get_lipschitz[T=2,pattern=%d]' % pi, u_multitask_lipschitz,
+                       dict(n=3, p=2, T=2, pattern=PATTERNS_32[pi]), wall_s=60))
     return us
 
 
